@@ -96,7 +96,7 @@ class CSide:
     def __init__(self, tree, rels=None):
         self.tree = tree
         rels = list(rels or FFI_C_FILES)
-        self.tus = cfacts.load_all(tree, rels)
+        self.tus = cfacts.load_all(tree, rels, jobs=1 if self._all_cached(tree, rels) else 16)
         self.funcs = {}  # name -> [CProto]
         self.typedefs = {}
         for rel, tu in self.tus.items():
@@ -109,6 +109,22 @@ class CSide:
                 ps = [(p.get("name", ""), p.get("type", {}).get("qualType", "")) for p in tu.params(name)]
                 self.funcs.setdefault(name, []).append(CProto(name, rel, ret, ps, tu.line_of(d)))
         self._unparsed_text = None
+
+    @staticmethod
+    def _all_cached(tree, rels):
+        """every TU is already in the digest-keyed clang cache (then no worker pool is needed)"""
+        import os
+        try:
+            for rel in rels:
+                full = cfacts.LIB + "/" + rel
+                if full in tree.overlay:
+                    continue  # one mutated file is parsed in-process
+                dg = cfacts._digest(tree, rel, tree.read(full))
+                if not os.path.exists(os.path.join(cfacts.CACHE, "%s.%s.json" % (rel.replace("/", "_"), dg))):
+                    return False
+            return True
+        except Exception:
+            return False
 
     def lookup(self, name, libname=None):
         """-> CProto | None ; prefers the definition inside the handle's library."""
@@ -534,6 +550,8 @@ class Engine:
                 FuncFlow(self, mf, fn).run()
 
     def _mentions_ffi(self, mf, fn):
+        if not mf.handles:
+            return False
         """cheap filter: the function refers to a handle, to a class attribute bound to a function
         reference, or calls one of its own parameters with ctypes-looking arguments"""
         for n in (pf.walk_no_nested(fn) if not isinstance(fn, ast.Module) else _walk_module_level(fn)):
@@ -544,9 +562,22 @@ class Engine:
                 if pf.is_self_attr(f) and self.class_attr_refs(mf, pf.enclosing_class(fn), f.attr):
                     return True
                 if isinstance(f, ast.Name) and not isinstance(fn, ast.Module) \
-                        and f.id in [a.arg for a in fn.args.args]:
+                        and fn.name in self._ref_receivers(mf) and f.id in [a.arg for a in fn.args.args]:
                     return True
         return False
+
+    def _ref_receivers(self, mf):
+        """names of module-level functions that some call in the module hands a library function to"""
+        c = self.__dict__.setdefault("_recv_cache", {})
+        if mf.rel not in c:
+            out = set()
+            if mf.handles:
+                for n in ast.walk(mf.mod.ast):
+                    if isinstance(n, ast.Call) and isinstance(n.func, ast.Name):
+                        if any(mf.fn_ref(a) for a in n.args) or any(mf.fn_ref(k.value) for k in n.keywords):
+                            out.add(n.func.id)
+            c[mf.rel] = out
+        return c[mf.rel]
 
     def class_attr_refs(self, mf, cls, attr):
         """function references bound to class attribute `attr` in cls, its bases and its subclasses"""
@@ -659,6 +690,23 @@ class FuncFlow:
                 out = [("list", x[1] + y[1]) for x in a for y in b]
                 if len(out) <= self.MAXENV and all(len(v[1]) <= self.MAXLIST for v in out):
                     return out
+            return [UNKNOWN]
+        if isinstance(e, ast.Subscript) and isinstance(e.slice, ast.Slice) and e.slice.step is None:
+            vs = self.eval(e.value, env)
+            lo, hi = e.slice.lower, e.slice.upper
+
+            def cint(x):
+                if x is None:
+                    return None
+                if isinstance(x, ast.Constant) and isinstance(x.value, int):
+                    return x.value
+                if isinstance(x, ast.UnaryOp) and isinstance(x.op, ast.USub) and isinstance(x.operand, ast.Constant) \
+                        and isinstance(x.operand.value, int):
+                    return -x.operand.value
+                return "?"
+            a, b = cint(lo), cint(hi)
+            if all(v[0] == "list" for v in vs) and a != "?" and b != "?":
+                return [("list", v[1][a:b]) for v in vs]
             return [UNKNOWN]
         if isinstance(e, ast.Call) and pf.call_name(e) == "list" and len(e.args) == 1 and not e.keywords:
             vs = self.eval(e.args[0], env)
